@@ -14,12 +14,12 @@ theorem cmp_int (op : String) (x y : I64) (b : Bool) (h : Spec.ExactArith.compar
     ∃ k, Eval.cmpKernels (F := F) op = some k ∧ Eval.compareNums k (.int x) (.int y) = b := by
   unfold Spec.ExactArith.compare at h
   split at h <;> first | (injection h with h; subst h) | (simp at h)
-  · exact ⟨_, rfl, by simp [Eval.compareNums, eqI, I64.ext_iff]⟩
-  · exact ⟨_, rfl, by simp [Eval.compareNums, neqI, I64.ext_iff]⟩
-  · exact ⟨_, rfl, by simp [Eval.compareNums, lssI, I64.lt_def]⟩
-  · exact ⟨_, rfl, by simp [Eval.compareNums, leqI, I64.le_def]⟩
-  · exact ⟨_, rfl, by simp [Eval.compareNums, gtrI, I64.gt_def]⟩
-  · exact ⟨_, rfl, by simp [Eval.compareNums, geqI, I64.ge_def]⟩
+  · exact ⟨_, rfl, by simp [Eval.compareNums, U.eqI, eqI, I64.ext_iff]⟩
+  · exact ⟨_, rfl, by simp [Eval.compareNums, U.neqI, neqI, I64.ext_iff]⟩
+  · exact ⟨_, rfl, by simp [Eval.compareNums, U.lssI, lssI, I64.lt_def]⟩
+  · exact ⟨_, rfl, by simp [Eval.compareNums, U.leqI, leqI, I64.le_def]⟩
+  · exact ⟨_, rfl, by simp [Eval.compareNums, U.gtrI, gtrI, I64.gt_def]⟩
+  · exact ⟨_, rfl, by simp [Eval.compareNums, U.geqI, geqI, I64.ge_def]⟩
 
 /-- the float relation a comparison predicate stands for -/
 def floatRel (op : String) (a b : F) : Option Bool :=
@@ -49,7 +49,8 @@ theorem cmp_mixed (op : String) (x y : Num F) (b : Bool)
   all_goals
     split at h <;> first | (injection h with h; subst h) | (simp at h)
   all_goals refine ⟨_, rfl, ?_⟩
-  all_goals simp only [Eval.compareNums, eqIF, eqFI, eqF, neqIF, neqFI, neqF, lssIF, lssFI, lssF, leqIF,
+  all_goals simp only [Eval.compareNums, U.eqIF, U.eqFI, U.eqF, U.neqIF, U.neqFI, U.neqF, U.lssIF, U.lssFI, U.lssF,
+    U.leqIF, U.leqFI, U.leqF, U.gtrIF, U.gtrFI, U.gtrF, U.geqIF, U.geqFI, U.geqF, eqIF, eqFI, eqF, neqIF, neqFI, neqF, lssIF, lssFI, lssF, leqIF,
     leqFI, leqF, gtrIF, gtrFI, gtrF, geqIF, geqFI, geqF, decide_flt, decide_fgt, decide_fle, decide_fge,
     decide_feq, decide_fne, Bool.decide_eq_true]
   all_goals simp only [toFloat, floatItoF]
